@@ -32,7 +32,7 @@ def budget(tier):
     ex = int(os.environ.get("VERIF_EXAMPLES", "0"))
     if tier == "quick":
         return dict(shards=16, examples=ex or 14, shrink_calls=25, shard_timeout=1500, time_budget=120)
-    return dict(shards=16, examples=ex or 200, shrink_calls=150, shard_timeout=6 * 3600, time_budget=3 * 3600)
+    return dict(shards=16, examples=ex or 600, shrink_calls=150, shard_timeout=6 * 3600, time_budget=1500)
 
 
 PS = ["1/2", "1/3", "2/3", "1/4", "3/4", "1/5"]
